@@ -136,7 +136,7 @@ Qed.
 Lemma flows_phase_sim fuel st :
   sim P (flows_phase trapE TCls visit1 fuel st) (flows_phase cls (fun c => c) visit2 fuel st).
 Proof.
-  unfold flows_phase. apply sim_foldM; [exact P_bind|]. intros cs d.
+  unfold flows_phase. apply sim_foldM; [exact P_bind|]. intros cs d. unfold flow_def_step.
   destruct (fd_dsheet d) as [|c1 ds], (fd_drow d) as [|c2 dr]; try apply one_flow_sim.
   - unfold liftE. apply sim_lift.
   - destruct (aget (is_data st) (c1 :: ds)) as [dsh|].
